@@ -520,7 +520,7 @@ func TestC09(t *testing.T) {
 // arbitrary stall offsets inside long frames.
 func TestC09Mixed(t *testing.T) {
 	rec := evid.For("C09")
-	rapid.Check(t, func(rt *rapid.T) {
+	checkProp(t, func(rt *rapid.T) {
 		c := c09Case{
 			Client:  rapid.Bool().Draw(rt, "client"),
 			Deflate: rapid.Bool().Draw(rt, "deflate"),
